@@ -145,7 +145,7 @@ def _validate_schedules(self, schedules, objdict=None):
             raise QuaraScheduleItemError(message)
         try:
             self._validate_schedule_order(schedule)
-        except ValueError as e:
+        except (ValueError, TypeError, KeyError, IndexError) as e:
             message = ''
             message += ''.format(i, str(schedule))
             message += ''.format(e.args[0])
